@@ -161,6 +161,12 @@ def check_multi(ctx, texts, dtexts, zp=None):
         fl[rel] = tx
         R += ["-r", "{S}/" + rel]
     ctx.res.counts["multi_groups_same_base_name" if same_base else "multi_groups_distinct_names"] += 1
+    if len(json.dumps(dtexts)) % 3 == 0:
+        # a rules file without any rule (a placeholder: comments only / empty) among the rules files: it contributes nothing, in any rendering
+        fl["placeholder/00_todo.guard"] = "# rules for this area are still to be written\n\n" if len(texts) % 2 else ""
+        pos_ = 2 * (len(json.dumps(texts)) % (len(texts) + 1))
+        R[pos_:pos_] = ["-r", "{S}/placeholder/00_todo.guard"]
+        ctx.res.counts["multi_groups_with_placeholder_rules_file"] += 1
     for i, dx in enumerate(dtexts):
         fl["d%d.json" % i] = dx
         D += ["-d", "{S}/d%d.json" % i]
